@@ -150,7 +150,7 @@ Lemma add_var_rgrows cfg r sc name t suffix r' sc' idx :
   add_var cfg r sc name t suffix = Ok (r', sc', idx) -> rgrows cfg r r'.
 Proof.
   unfold add_var. destruct (populate cfg r (refs t) []) as [[r1 imps]| | | |] eqn:P; try discriminate.
-  cbn [bind]. destruct (_ && _); [discriminate|].
+  cbn [bind].
   match goal with |- bind ?x _ = _ -> _ => destruct x as [[n2 sc2]| | | |]; try discriminate end.
   cbn [bind]. intros E. inversion E; subst. eapply populate_rgrows. exact P.
 Qed.
